@@ -243,8 +243,10 @@ def _r1(ctx):
             elif a[0] == "truthy" and "match(P0)" in A.fmt(a[1]):
                 d = S.lang_matches(pat, ab)
                 d = d if v else d.complement()
-            elif a[0] == "ord" and A.is_const(a[2]) and \
-                    "len(" in A.fmt(a[1]) and "group(0)" in A.fmt(a[1]):
+            elif a[0] == "ord" and A.is_const(a[2]) and (
+                    ("len(" in A.fmt(a[1]) and "group(0)" in A.fmt(a[1]))
+                    # m.end() of a match anchored at 0 is its length
+                    or (A.fmt(a[1]).endswith(".match(P0).end()"))):
                 k = a[2][1]
                 pred = {"<": lambda n, k=k: n < k, "=": lambda n, k=k: n == k,
                         ">": lambda n, k=k: n > k}[v]
